@@ -232,31 +232,49 @@ def _const(ctx, m, node):
 
 
 def rule_4(ctx):
+    """ModelCompiler.build_defined_names interpreted on an abstract compiler: which names end up bound, and to what."""
     mm = ctx.mod('model')
     bd = mm.func('ModelCompiler.build_defined_names')
-    # the key looked up in model.cells
-    lookups = [n for n in walk_local(bd) if isinstance(n, ast.Compare) and isinstance(n.ops[0], (ast.In, ast.NotIn))
-               and 'cells' in ast.unparse(n.comparators[0])]
-    if not lookups:
-        raise AnchorMissing('build_defined_names: membership test on model.cells')
-    key = lookups[0].left
-    if not isinstance(key, ast.Name):
-        raise Unmodelled('cells key is not a local name')
-    assigns = [a for a in walk_local(bd) if isinstance(a, ast.Assign) and any(
-        isinstance(t, ast.Name) and t.id == key.id for t in a.targets)]
-    txt = ' '.join(ast.unparse(a.value) for a in assigns)
-    dollar = any(isinstance(c, ast.Call) and isinstance(c.func, ast.Attribute) and c.func.attr == 'replace' and c.args
-                 and isinstance(c.args[0], ast.Constant) and c.args[0].value == '$' for a in assigns for c in ast.walk(a.value)) \
-        or 'strip_absolute' in txt
-    unquote = any(isinstance(c, ast.Call) and ((isinstance(c.func, ast.Attribute) and c.func.attr in ('resolve_sheet', 'resolve_address', 'resolve_ranges'))
-                                                or (isinstance(c.func, ast.Attribute) and c.func.attr in ('strip', 'replace') and c.args
-                                                    and isinstance(c.args[0], ast.Constant) and "'" in str(c.args[0].value)))
-                  for a in assigns for c in ast.walk(a.value))
-    ctx.expect(dollar, bd, 'defined-name target: $ removed', 'the target of a defined name keeps its $ markers when it is looked up')
-    ctx.expect(unquote, bd, 'defined-name target: sheet name unquoted',
+
+    def cell(addr, value=None, formula=None):
+        return Rec(cls='pkg:xltypes:XLCell', address=addr, value=value, formula=formula, defined_names=[], need_update=False)
+
+    def formula(text, sheet):
+        return Rec(cls='pkg:xltypes:XLFormula', formula=text, sheet_name=sheet, evaluate=True, terms=[], ast=None)
+    f_b1, f_c1 = formula('=A1*2', 'Sheet1'), formula('=A1*3', 'Sheet1')
+    cells = {'Sheet1!A1': cell('Sheet1!A1', 5), 'Sheet1!A2': cell('Sheet1!A2', 6), 'Sheet1!B1': cell('Sheet1!B1', None, f_b1),
+             'Sheet1!C1': cell('Sheet1!C1', 15, f_c1), 'My Sheet!A1': cell('My Sheet!A1', 1), 'Sheet1!D1': cell('Sheet1!D1', 0),
+             'Sheet1!E1': cell('Sheet1!E1', '')}
+    model = Rec(cls='pkg:model:Model', cells=cells, defined_names={}, ranges={}, formulae={'Sheet1!B1': f_b1, 'Sheet1!C1': f_c1})
+    names = {'Base': 'Sheet1!$A$1', 'Twice': 'Sheet1!$B$1', 'Cached': 'Sheet1!$C$1', 'Gone': 'Sheet1!$Z$9', 'Rng': 'Sheet1!$A$1:$A$2',
+             'Quoted': "'My Sheet'!$A$1", 'Zero': 'Sheet1!$D$1', 'Empty': 'Sheet1!$E$1'}
+    compiler = Rec(cls='pkg:model:ModelCompiler', model=model, defined_names=dict(names))
+    it = Interp(ctx.a, mm, {func_params(bd)[0]: compiler}, isinstance_fn=_isinst(ctx), inline_pkg=True, scope_fn=bd, self_class='pkg:model:ModelCompiler',
+                call_models=_reader_models())
+    out = it.run(bd.body)
+    if out.end == 'raise':
+        ctx.bad(bd, 'build_defined_names completes on the witness workbook', f'build_defined_names raises {out.value!r} on a workbook with names '
+                'for a constant cell, a formula cell with and without cached value, an empty cell, a range and a quoted sheet')
+        return
+    got = model.f['defined_names']
+    for name, addr, why in (('Base', 'Sheet1!A1', 'a constant cell'), ('Cached', 'Sheet1!C1', 'a formula cell with a cached value'),
+                            ('Twice', 'Sheet1!B1', 'a formula cell stored without a cached value'),
+                            ('Zero', 'Sheet1!D1', 'a cell holding 0'), ('Empty', 'Sheet1!E1', 'a cell holding the empty text')):
+        ctx.expect(got.get(name) is cells[addr], bd, f'a name for {why} is bound to the cell object of the cells map',
+                   f'the defined name {name} -> {names[name]} ({why}) is bound to {got.get(name)!r}: every name whose target cell exists must '
+                   'be bound to that very cell (whatever the cell currently holds), otherwise formulas and evaluate(name) read a blank')
+    ctx.expect('Gone' not in got, bd, 'a name for a cell that is not stored is skipped', 'a defined name pointing at a missing cell is bound')
+    rng = got.get('Rng')
+    ctx.expect(isinstance(rng, Rec) and rng.f.get('cls') == 'pkg:xltypes:XLRange' and model.f['ranges'].get('Sheet1!A1:A2') is rng, bd,
+               'a range name is bound to an XLRange registered under its $-free address',
+               f'the range name Rng -> Sheet1!$A$1:$A$2 is bound to {rng!r}, ranges registry keys {sorted(model.f["ranges"])}')
+    ctx.expect(model.f['formulae'].get('Twice') is f_b1 and model.f['formulae'].get('Cached') is f_c1, bd,
+               'names of formula cells are entered into the formulae map',
+               f'formulae holds {sorted(model.f["formulae"])}: the names of formula cells must map to the formula of their cell')
+    ctx.expect(got.get('Quoted') is cells['My Sheet!A1'], bd, 'defined-name target: sheet name unquoted',
                'the target of a defined name keeps the quotes around its sheet name (\'Other Sheet\'!$A$1), while cell keys use '
                'the bare sheet name: a name bound to a cell of a sheet whose name needs quotes is dropped with a warning')
-    ctx.floor(2, 'normalisation steps of name targets')
+    ctx.floor(9, 'defined-name witnesses')
 
 
 def rule_5(ctx):
